@@ -183,7 +183,15 @@ func (g *Gen) lookupIdent(name string, env *Env) (Term, error) {
 			return t, nil
 		}
 	}
-	if !env.noLocals && !env.paramsFirst {
+	isFV := false
+	if g.fn != nil {
+		for _, fv := range g.fn.FreeVars {
+			if fv.Name() == name {
+				isFV = true // captured variables always denote the cell's value in the state of the clause
+			}
+		}
+	}
+	if !env.noLocals && !env.paramsFirst && !isFV {
 		if t, ok := g.lookupLocal(name, env.at, env.st); ok {
 			return t, nil
 		}
@@ -191,7 +199,7 @@ func (g *Gen) lookupIdent(name string, env *Env) (Term, error) {
 	if t, ok := param(); ok {
 		return t, nil
 	}
-	if !env.noLocals && env.paramsFirst {
+	if !env.noLocals && env.paramsFirst && !isFV {
 		if t, ok := g.lookupLocal(name, env.at, env.st); ok {
 			return t, nil
 		}
@@ -334,7 +342,21 @@ func (g *Gen) selectField(x Term, name string, env *Env) (Term, error) {
 		return Term{S: g.subref(st, idx, x.S), Sort: "Int", T: types.NewPointer(ft)}, nil
 	}
 	hn, vs, _ := g.fieldHeap(st, idx)
-	return Term{S: g.loadIn(env.st, Addr{Heap: hn, Base: x.S, Sort: vs}), Sort: vs, T: ft}, nil
+	val := g.loadIn(env.st, Addr{Heap: hn, Base: x.S, Sort: vs})
+	g.assumeValueWF(val, ft)
+	return Term{S: val, Sort: vs, T: ft}, nil
+}
+
+// assumeValueWF: every value stored in the heap satisfies its type's invariant (slice header well-formedness,
+// integer range); stated for heap reads made by contract expressions, as instruction loads do.
+func (g *Gen) assumeValueWF(val string, t types.Type) {
+	if strings.Contains(val, "q!") || g.specMode { // mentions a bound variable: cannot be asserted globally
+		return
+	}
+	if inv := g.typeInv(val, t); inv != "true" && !g.wfSeen[val] {
+		g.wfSeen[val] = true
+		g.assumeRaw(inv)
+	}
 }
 
 func (g *Gen) indexTerm(x, i Term, env *Env) (Term, error) {
@@ -370,7 +392,9 @@ func (g *Gen) indexTerm(x, i Term, env *Env) (Term, error) {
 		return Term{S: fmt.Sprintf("(elemref %s %s)", arr, idx), Sort: "Int", T: types.NewPointer(et)}, nil
 	}
 	h, s := g.elemHeap(et)
-	return Term{S: g.loadIn(env.st, Addr{Heap: h, Base: arr, Idx: idx, Sort: s}), Sort: s, T: et}, nil
+	val := g.loadIn(env.st, Addr{Heap: h, Base: arr, Idx: idx, Sort: s})
+	g.assumeValueWF(val, et)
+	return Term{S: val, Sort: s, T: et}, nil
 }
 
 func nodePath(n *Node) string {
@@ -806,6 +830,23 @@ func (g *Gen) evalCall(n *Node, env *Env) (Term, error) {
 		}
 		h := g.svIn(env.st, "E_uint8", "(Array Int (Array Int Int))")
 		return Term{S: fmt.Sprintf("(b2s (select %s (sarr %s)) (soff %s) (slen %s))", h, x.S, x.S, x.S), Sort: "Str", T: types.Typ[types.String]}, nil
+	case "wasAllocated": // x (evaluated now) was already allocated in the old state (entry / before the call)
+		x, err := arg(0)
+		if err != nil {
+			return Term{}, err
+		}
+		return Term{S: fmt.Sprintf("(select %s %s)", g.svIn(env.old, "$alloc", "(Array Int Bool)"), x.S), Sort: "Bool"}, nil
+	case "bitor", "bitand", "bitxor":
+		a, err := arg(0)
+		if err != nil {
+			return Term{}, err
+		}
+		b, err := arg(1)
+		if err != nil {
+			return Term{}, err
+		}
+		g.declFun(name, "(Int Int) Int")
+		return Term{S: fmt.Sprintf("(%s %s %s)", name, a.S, b.S), Sort: "Int", T: types.Typ[types.Int]}, nil
 	case "allocated":
 		x, err := arg(0)
 		if err != nil {
